@@ -570,3 +570,46 @@ Example c12_annotations_precedence_applies :
   with_annotations_n 3 [("vendor", "from-config-file"); ("title", "demo")] [("vendor", "from-command-line"); ("licenses", "Apache-2.0")] ["licenses"; "vendor"]
   = [("vendor", "from-command-line"); ("title", "demo"); ("licenses", "Apache-2.0")].
 Proof. split; reflexivity. Qed.
+
+(* ---- SOURCE_DATE_EPOCH ------------------------------------------------------------------------
+   build.New reads the variable as text: white space only = ignored (all_space: strings.TrimSpace
+   leaves nothing), otherwise strconv.ParseInt(v, 10, 64) of the UNTRIMMED text (parse_int64: an
+   optional sign, decimal digits, int64 range; anything else fails the build), and the result
+   replaces whatever --build-date / WithSourceDateEpoch declared.  For every sequence of date
+   options that succeeds and every text that parses to a second count e in the serialisable
+   range: e is the declared creation time; the index annotation, the config's created field,
+   the created label and one history entry per layer are e printed by the modelled RFC 3339
+   printer, and that text denotes e (c12_rfc3339_roundtrip).  parse_int64's numerals are
+   pinned by: results are int64 values, and appending a digit d to digits of value n gives
+   10 n + d. *)
+Theorem c12_source_date_epoch_created : forall ds z0 v e base bh etype ic arch nlayers dord eord,
+  fold_left apply_date ds (Ok 0%Z) = Ok z0 -> parse_int64 v = Some e ->
+  (rfc3339_min <= e <= rfc3339_max)%Z ->
+  merge_into_copies_vcs_url = true -> NoDup (akeys (ic_env ic)) ->
+  Permutation dord (akeys default_env) -> Permutation eord (akeys (with_defaults default_env dord (ic_env ic))) ->
+  declared_date_env ds (Some v) = Ok e /\ (int64_min <= e <= int64_max)%Z /\
+  parse_rfc3339 (format_rfc3339 e) = Some e /\
+  alookup created_key (index_annotations format_rfc3339 (ic_vcs_url ic) e (ic_annotations ic)) = Some (format_rfc3339 e) /\
+  match build_image true etype base bh ic (utc_time e) arch nlayers dord eord with
+  | Ok out => ImageTimeOk bh nlayers e out /\
+              io_created out = Some (format_rfc3339 e) /\
+              alookup created_key (oc_labels (io_config out)) = Some (format_rfc3339 e)
+  | Err => shlex_failed shlex_split (declared_ic etype ic)
+  | _ => False
+  end.
+Proof. exact source_date_epoch_created. Qed.
+Print Assumptions c12_source_date_epoch_created.
+
+Theorem c12_decimal_numerals : forall u c,
+  dec_value (u ++ String c "")%string = (10 * dec_value u + (Z.of_N (N_of_ascii c) - 48))%Z.
+Proof. exact dec_value_snoc. Qed.
+Print Assumptions c12_decimal_numerals.
+
+Example c12_source_date_epoch_examples :
+  declared_date_env [DText "2020-02-29T12:00:00Z"] (Some "1700000000") = Ok 1700000000%Z /\
+  declared_date_env [DText "2020-02-29T12:00:00Z"] (Some "  ") = Ok 1582977600%Z /\
+  declared_date_env [DEpoch 5] None = Ok 5%Z /\ declared_date_env [] (Some "+7") = Ok 7%Z /\ declared_date_env [] (Some "-1") = Ok (-1)%Z /\
+  declared_date_env [] (Some " 5") = Err /\ declared_date_env [] (Some "5 ") = Err /\ declared_date_env [] (Some "1_000") = Err /\
+  declared_date_env [] (Some "9223372036854775808") = Err /\ declared_date_env [] (Some "-9223372036854775808") = Ok int64_min /\
+  declared_date_env [DText "2023-02-29T00:00:00Z"] (Some "5") = Err.
+Proof. vm_compute. repeat (split; try reflexivity). Qed.
